@@ -12,7 +12,7 @@ from props import PROPS
 
 ALL = [p for p in ["C%02d" % i for i in range(1, 21)] if p in PROPS]
 RD = os.path.join(V, "refactors")
-BASES = ["87c37a6", "3f0a31d"]  # earlier /repo HEADs the refactorings were written against (newest first)
+BASES = ["b788a24", "87c37a6", "3f0a31d"]  # earlier /repo HEADs the refactorings were written against (newest first)
 _BASELINES = {}
 
 
